@@ -415,6 +415,7 @@ def run_prop(prop, tier, seed):
     rep.notes["generator_underlying_histories_checked_by_predicates_only"] = len(gen_cases)
     if prop == "C07":
         fails += transient_error_probes(rep)
+        fails += failing_tool_probe(rep)
         fails += concurrent_close_probe(rep)
         fails += scope_over_handle_probe(rep)
     if prop == "C08":
@@ -495,6 +496,81 @@ def transient_error_probes(rep):
             if why:
                 fails += 1
                 rep.violation("borrow:transient-error", {"closed": how, "then": via, "why": why})
+    return fails
+
+
+def failing_tool_probe(rep):
+    """C07, directed: a borrowed handle is given to a tool whose callable (or whose consumer) fails part-way.  The tool
+    cleans up its input -- the handle --, never the iterator the handle was borrowed from: the underlying iterator (an async
+    generator with asend/athrow, or a class-based one) stays open, sees no exception, and hands its remaining items to
+    the owner in order."""
+    fails = 0
+
+    class Boom(Exception):
+        pass
+
+    def failing(n):
+        calls = []
+
+        async def f(*args):
+            calls.append(args)
+            if len(calls) > n:
+                raise Boom(n)
+            return args[-1]
+        return f
+    tools = {
+        "reduce": lambda h, f: a.reduce(f, h),
+        "map": lambda h, f: a.list(a.map(f, h)),
+        "filter": lambda h, f: a.list(a.filter(f, h)),
+        "min(key)": lambda h, f: a.min(h, key=f),
+        "sorted(key)": lambda h, f: a.sorted(h, key=f),
+        "accumulate": lambda h, f: a.list(a.accumulate(h, f)),
+        "takewhile": lambda h, f: a.list(a.takewhile(f, h)),
+        "starmap": lambda h, f: a.list(a.starmap(f, a.map(lambda x: (x,), h))),
+        "groupby(key)": lambda h, f: a.list(a.groupby(h, key=f)),
+        "dropwhile": lambda h, f: a.list(a.dropwhile(f, h)),
+    }
+    for kind in ("generator", "class"):
+        for name, tool in tools.items():
+            seen = []
+
+            async def agen():
+                try:
+                    for i in range(1, 9):
+                        yield i
+                except BaseException as e:  # noqa
+                    seen.append(type(e).__name__)
+                    raise
+            got = {}
+
+            async def go():
+                u = agen() if kind == "generator" else USend([Obj(j + 1, j + 1) for j in range(8)])
+                h = a.borrow(u)
+                try:
+                    await tool(h, failing(2))
+                    got["tool"] = "returned"
+                except Boom:
+                    got["tool"] = "raised"
+                nxt = await u.__anext__()
+                got["owner"] = nxt if kind == "generator" else nxt.id
+                got["closed"] = (u.ag_frame is None) if kind == "generator" else bool(u.closed)
+            try:
+                drive(go())
+                why = None
+                if got.get("tool") != "raised":
+                    why = "the callable's exception did not propagate (%r)" % (got.get("tool"),)
+                elif seen:
+                    why = "the underlying generator was thrown %r" % (seen,)
+                elif got["closed"]:
+                    why = "the underlying iterator was closed"
+                elif not isinstance(got["owner"], int) or not 3 <= got["owner"] <= 5:
+                    why = "the owner's next item is %r" % (got["owner"],)
+            except BaseException as e:  # noqa
+                why = "failed with %r (underlying saw %r)" % (e, seen)
+            rep.count(("borrow-failing-tool", kind, name), True)
+            if why:
+                fails += 1
+                rep.violation("borrow:failing-tool", {"underlying": kind, "tool": name, "why": "borrow(u) given to %s whose callable raises at its third call: %s" % (name, why)})
     return fails
 
 
@@ -588,6 +664,26 @@ def shared_consumption_probe(rep):
     for sel in ([1, 0, 1], [0, 0], [], [1] * 12):
         both("compress(handle, %r)" % (sel,), lambda h: a.compress(h, sel), lambda s_: it_.compress(s_, sel))
         both("compress(%r, handle)" % (sel,), lambda h: a.compress(sel, h), lambda s_: it_.compress(sel, s_))
+    def strict_zip(mk_zip, *iterables):
+        async def gen(z):
+            try:
+                async for row in z:
+                    yield row
+            except ValueError:
+                yield "ValueError"
+        return lambda h: gen(mk_zip(*[h if x is None else x for x in iterables]))
+
+    def strict_zip_std(*iterables):
+        def run(s_):
+            try:
+                for row in zip(*[s_ if x is None else x for x in iterables], strict=True):
+                    yield row
+            except ValueError:
+                yield "ValueError"
+        return run
+    for shape in (([], ["x"], None), ([], None, ["x"]), ([1], ["x", "y"], None), (None, [], ["x"]), ([], [], None), ([1, 2], None, ["x"]), ([], ["x"], ["y"], None)):
+        both("zip(strict=True) with the handle at the position of None in %r" % (shape,),
+             strict_zip(lambda *its: a.zip(*its, strict=True), *shape), strict_zip_std(*shape))
     for k in (0, 3, 20):
         both("takewhile(< %d)" % k, lambda h: a.takewhile(lambda x: x < k, h), lambda s_: it_.takewhile(lambda x: x < k, s_))
         both("dropwhile(< %d) then 1" % k, lambda h: a.islice(a.dropwhile(lambda x: x < k, h), 1), lambda s_: it_.islice(it_.dropwhile(lambda x: x < k, s_), 1))
@@ -907,7 +1003,10 @@ def shared_iterator_oracle(rep, rng, tier):
                 return "the scoped handle still yields after exit"
             except StopAsyncIteration:
                 return None
-        why = drive(go())
+        try:
+            why = drive(go())
+        except BaseException as e:  # noqa
+            why = "the scoped block (depth %d over a class-based closeable iterator) failed with %r" % (depth, e)
         # the synchronous counterpart
         sit = builtins.iter(list(items))
         got_s = []
